@@ -343,6 +343,8 @@ func emitProof(w *tr.Writer, st *PStats, ev map[string]any, sig string) {
 // cross-trie tampering.
 func RunProofRandom(w *tr.Writer, st *PStats, tid *int, r *rand.Rand) {
 	nk := 3 + r.Intn(40)
+	// real weights = small weights times a scale (see wrun.scale): the trace carries the small numbers
+	S := []uint64{1, 1, 1000, 1 << 20, 1<<33 + 7, 1 << 40}[r.Intn(6)]
 	var entries []pentry
 	seen := map[string]bool{}
 	t := wmpt.New(nil, nil)
@@ -368,7 +370,7 @@ func RunProofRandom(w *tr.Writer, st *PStats, tid *int, r *rand.Rand) {
 		}
 		wt := uint64(1 + r.Intn(3))
 		rks = append(rks, rk{k, v, wt})
-		if err := t.Update(k, []byte(v), wt); err != nil {
+		if err := t.Update(k, []byte(v), wt*S); err != nil {
 			panic(err)
 		}
 	}
@@ -381,7 +383,7 @@ func RunProofRandom(w *tr.Writer, st *PStats, tid *int, r *rand.Rand) {
 		db := &memKV{m: map[string][]byte{}}
 		t = wmpt.New(nil, db)
 		for _, e := range rks {
-			if err := t.Update(e.key, []byte(e.val), e.w); err != nil {
+			if err := t.Update(e.key, []byte(e.val), e.w*S); err != nil {
 				panic(err)
 			}
 		}
@@ -403,7 +405,7 @@ func RunProofRandom(w *tr.Writer, st *PStats, tid *int, r *rand.Rand) {
 		if i == 0 {
 			wt++
 		}
-		t2.Update(e.key, []byte(e.val+"x"), wt)
+		t2.Update(e.key, []byte(e.val+"x"), wt*S)
 	}
 	ej := entriesJSON(entries)
 	for n := 0; n < 12; n++ {
@@ -459,7 +461,8 @@ func RunProofRandom(w *tr.Writer, st *PStats, tid *int, r *rand.Rand) {
 			}
 		}
 		*tid++
-		ev := map[string]any{"tid": *tid, "op": "proof", "entries": ej, "block": b, "nedits": map[bool]int{true: 0, false: 1}[kind == "honest"],
+		// the trace carries the small numbers: entries with unscaled weights, the block's unit (see wrun.scale)
+		ev := map[string]any{"tid": *tid, "op": "proof", "entries": ej, "block": (b-1)/S + 1, "nedits": map[bool]int{true: 0, false: 1}[kind == "honest"],
 			"reweighted": false, "imitated": imitated, "applied": true, "mforged": false, "kind": kind}
 		verifyOutcome(ev, root, b, proof)
 		emitProof(w, st, ev, kind)
